@@ -40,8 +40,11 @@ type zzConn struct {
 	closed  bool
 }
 
-func (c *zzConn) Read(b []byte) (int, error)         { return 0, nil }
-func (c *zzConn) Write(b []byte) (int, error)        { c.written = append(c.written, append([]byte{}, b...)); return len(b), nil }
+func (c *zzConn) Read(b []byte) (int, error) { return 0, nil }
+func (c *zzConn) Write(b []byte) (int, error) {
+	c.written = append(c.written, append([]byte{}, b...))
+	return len(b), nil
+}
 func (c *zzConn) Close() error                       { c.closed = true; return nil }
 func (c *zzConn) LocalAddr() net.Addr                { return zzAddr("127.0.0.1:1") }
 func (c *zzConn) RemoteAddr() net.Addr               { return c.addr }
@@ -111,7 +114,7 @@ type zzRecorder struct {
 	body   []byte
 }
 
-func newRecorder() *zzRecorder { return &zzRecorder{hdr: http.Header{}} }
+func newRecorder() *zzRecorder            { return &zzRecorder{hdr: http.Header{}} }
 func (r *zzRecorder) Header() http.Header { return r.hdr }
 func (r *zzRecorder) WriteHeader(code int) {
 	if r.status == 0 {
@@ -146,18 +149,18 @@ func (zzCrypt) Encrypt(r io.Reader) (io.Reader, error) { return r, nil }
 func (zzCrypt) Decrypt(r io.Reader) (io.Reader, error) { return r, nil }
 
 type zzWorld struct {
-	srv       *Server
-	ctx       hap.Context
-	db        *zzDB
-	dev       *zzDevice
-	container *accessory.Container
-	acc       *accessory.Accessory
-	on        *characteristic.On
-	bright    *characteristic.Brightness
-	name      *characteristic.Name // read-only
-	wo        *characteristic.Characteristic
+	srv        *Server
+	ctx        hap.Context
+	db         *zzDB
+	dev        *zzDevice
+	container  *accessory.Container
+	acc        *accessory.Accessory
+	on         *characteristic.On
+	bright     *characteristic.Brightness
+	name       *characteristic.Name // read-only
+	wo         *characteristic.Characteristic
 	identified int
-	emitted   []interface{}
+	emitted    []interface{}
 	// a second accessory of the same shape (a bridge): instance ids repeat across accessories
 	acc2    *accessory.Accessory
 	bright2 *characteristic.Brightness
@@ -241,4 +244,3 @@ func itoa(u uint64) string {
 	}
 	return string(b)
 }
-
